@@ -40,7 +40,8 @@ class Server(object):
         try:
             is_ok = True
             result = getattr(self, name)(*args, **kwargs)
-        except Exception as e:
+        except (Exception, SystemExit) as e:
+            # a request must not take the server down: eval('sys.exit()')
             logger.exception('%s error', name)
             is_ok = False
             result = e.__class__.__name__, str(e)
